@@ -382,6 +382,30 @@ pub mod facade {
     }
   }
 
+  /// The socket core's reconnect back-off cursor (socket/core/state.rs).
+  pub struct ReconnectX(crate::socket::core::state::ReconnectState);
+  impl ReconnectX {
+    pub fn new() -> Self {
+      Self(Default::default())
+    }
+    /// Delay handed out for this failure, in milliseconds.
+    pub fn on_failure(&mut self, base_ms: u64, max_ms: u64) -> u128 {
+      self
+        .0
+        .on_connection_failure(
+          std::time::Duration::from_millis(base_ms),
+          std::time::Duration::from_millis(max_ms),
+        )
+        .as_millis()
+    }
+    pub fn on_success(&mut self) {
+      self.0.on_connection_success()
+    }
+    pub fn attempts(&self) -> u32 {
+      self.0.current_attempts
+    }
+  }
+
   // ------------------------------------------------------------------
   // RouterMap (ROUTER addressing state) and the envelope helpers
   // ------------------------------------------------------------------
